@@ -93,11 +93,17 @@ def check_name(v, acc, sc):
     exp = R.name_fields(v)
     exp['reserved_bit'] = 0
     ev = R.name_value(exp)
-    for how in ('value', 'bytes', 'fields'):
+    for how in ('value', 'bytes', 'the value setter', 'the bytes setter', 'fields'):
         if how == 'value':
             n = Name(value=v)
         elif how == 'bytes':
             n = Name(bytes=R.name_bytes(v))
+        elif how == 'the value setter':
+            n = Name()
+            n.value = v
+        elif how == 'the bytes setter':
+            n = Name(value=0xFFFFFFFFFFFFFFFF)
+            n.bytes = R.name_bytes(v)
         else:
             kw = {k: x for k, x in exp.items() if k != 'reserved_bit'}
             n = Name(**kw)
